@@ -672,66 +672,74 @@ fn any_seed() -> ([Thread; 3], u8) {
     (s, act)
 }
 
-fn choice(path: &Path, i: usize) -> u8 {
-    active_of(&snap(path, i))
+/// C15 inheritance lemma: a new scheduling point created above an arbitrary
+/// schedule entry (optionally with a load entry in between).
+fn inherit_case(with_load_between: bool) {
+    let b: u8 = kani::any();
+    kani::assume(b <= 3);
+    let mut path = Path::new(3, Some(b), true);
+    push_any(&mut path, 0);
+    if with_load_between {
+        push_any(&mut path, 1);
+    }
+    let prev = snap(&path, 0);
+    // reachable stacks: exactly one thread is running at a schedule point, and
+    // loom's own invariant preemptions() <= bound holds
+    kani::assume(active_of(&prev) != NONE);
+    let prev_preempted = prev.initial_active != NONE && prev.initial_active != active_of(&prev);
+    let prev_count = prev.preemptions + if prev_preempted { 1 } else { 0 };
+    kani::assume(prev_count <= b);
+    path.pos = path.branches.len();
+    let (seed, d) = any_seed();
+    let got = path.branch_thread(eid(), seed.into_iter());
+    assert!(got.map(|t| t.as_usize() as u8) == Some(d));
+    let top = snap(&path, path.branches.len() - 1);
+    assert!(top.kind == 0 && top.prev == 0);
+    // the count a point inherits = the count below it + whether the point below
+    // switched away from the thread that could have continued
+    assert!(top.preemptions == prev_count);
+    assert!(top.preemptions <= b);
+    // "could have continued": the default choice of the new point is the thread
+    // chosen at the point below
+    if d == active_of(&prev) {
+        assert!(top.initial_active == d);
+    } else {
+        assert!(top.initial_active == NONE);
+    }
+    kani::cover!(prev_preempted && d != active_of(&prev), "forced switch right after a preemption");
+    kani::cover!(prev_preempted && d == active_of(&prev), "same thread continues after a preemption");
+    kani::cover!(!prev_preempted && prev.preemptions == 2, "inherits an older count unchanged");
+    std::mem::forget(path);
 }
 
 vharness! {
-    /// @prop C15 @tier quick @mode fast @cost 3 @timeout 3600 @funcs Path::branch_thread,Path::backtrack,Path::step,Schedule::preemptions,Schedule::backtrack @bounds 2 schedule points with symbolic seeds over 3 threads, 2 symbolic backtrack requests, one DFS step, replay, a third schedule point; preemption bound 0..2 symbolic
-    /// the preemption count a schedule point inherits equals an independent count (decisions below it where the thread that could have continued was switched away from) and never exceeds the bound, also when the new point itself is a forced switch.
+    /// @prop C15 @tier quick @mode fast @cost 2 @funcs Path::branch_thread,Path::last_schedule,Schedule::preemptions,Schedule::active_thread_index @bounds an arbitrary schedule entry (3 symbolic threads, symbolic initial_active and count 0..3) below a new scheduling point with a symbolic seed; preemption bound 0..3
+    /// the preemption count a scheduling point inherits is the count below it plus one iff the point below switched away from the thread that could have continued -- also when the new point itself is a forced switch; it never exceeds the bound; the new point's default thread is recorded as "could continue" exactly when it is the thread chosen below.
     #[cfg_attr(kani, kani::unwind(8))]
-    fn path_preemption_count() {
+    fn path_preemption_inherit() { inherit_case(false) }
+}
+
+vharness! {
+    /// @prop C15 @tier thorough @mode fast @cost 2 @funcs Path::branch_thread,Path::last_schedule @bounds as path_preemption_inherit with an atomic-load decision between the two scheduling points
+    /// inheritance skips non-schedule entries.
+    #[cfg_attr(kani, kani::unwind(8))]
+    fn path_preemption_inherit_over_load() { inherit_case(true) }
+}
+
+vharness! {
+    /// @prop C15 @tier quick @mode fast @funcs Path::branch_thread @bounds first scheduling point of an execution, symbolic seed
+    /// the first scheduling point starts with count zero and its default thread recorded as able to continue.
+    #[cfg_attr(kani, kani::unwind(8))]
+    fn path_preemption_first_point() {
         let b: u8 = kani::any();
-        kani::assume(b <= 2);
-        let mut path = Path::new(4, Some(b), true);
-        let (s0, d0) = any_seed();
-        let (s1, d1) = any_seed();
-        let c0 = path.branch_thread(eid(), s0.into_iter());
-        assert!(c0.map(|t| t.as_usize() as u8) == Some(d0));
-        let c1 = path.branch_thread(eid(), s1.into_iter());
-        assert!(c1.map(|t| t.as_usize() as u8) == Some(d1));
-        assert!(snap(&path, 0).preemptions == 0 && snap(&path, 1).preemptions == 0);
-        let could_continue_1 = d1 == d0;
-        // DPOR asks for alternatives
-        let t: usize = kani::any();
-        kani::assume(t < 3);
-        path.backtrack(1, tid(t));
-        let t2: usize = kani::any();
-        kani::assume(t2 < 3);
-        path.backtrack(0, tid(t2));
-        if !path.step() {
-            std::mem::forget(path);
-            return;
-        }
-        let len = path.branches.len();
-        // replay of the retained prefix returns the stored decisions
-        let r0 = path.branch_thread(eid(), simple_seed().into_iter());
-        assert!(r0.map(|t| t.as_usize() as u8) == Some(choice(&path, 0)));
-        let mut count: u8 = 0;
-        if choice(&path, 0) != d0 {
-            count += 1; // the very first decision was switched away from its default
-        }
-        if len == 2 {
-            let r1 = path.branch_thread(eid(), simple_seed().into_iter());
-            assert!(r1.map(|t| t.as_usize() as u8) == Some(choice(&path, 1)));
-            // DFS advanced the top entry only
-            assert!(choice(&path, 0) == d0);
-            if could_continue_1 && choice(&path, 1) != d1 {
-                count += 1;
-            }
-        }
-        assert!(count <= b);
-        // a new scheduling point, possibly a forced switch
-        let (s2, _d2) = any_seed();
-        path.branch_thread(eid(), s2.into_iter());
-        let top = snap(&path, len);
-        assert!(top.kind == 0);
-        assert!(top.preemptions == count);
-        assert!(top.preemptions <= b);
-        kani::cover!(len == 2 && count == 1, "preemption at the second point");
-        kani::cover!(len == 1 && count == 1, "preemption at the first point");
-        kani::cover!(count == 1 && _d2 != choice(&path, len - 1), "new point is a forced switch after a preemption");
-        kani::cover!(count == 0 && len == 2, "advance without preemption (previous thread could not continue)");
+        kani::assume(b <= 3);
+        let mut path = Path::new(2, Some(b), true);
+        let (seed, d) = any_seed();
+        let got = path.branch_thread(eid(), seed.into_iter());
+        assert!(got.map(|t| t.as_usize() as u8) == Some(d));
+        let top = snap(&path, 0);
+        assert!(top.preemptions == 0 && top.initial_active == d && top.prev == NONE);
+        kani::cover!(d == 2, "thread 2 runs first");
         std::mem::forget(path);
     }
 }
